@@ -289,3 +289,9 @@ impl Drop for UserPingsRx {
 fn broken_pipe() -> io::Error {
     io::ErrorKind::BrokenPipe.into()
 }
+
+#[cfg(feature = "verif")]
+#[allow(missing_docs, dead_code, unused_imports)]
+pub(crate) mod verif_h {
+    include!(concat!(env!("H2_VERIF_DIR"), "/harness/proto/ping_pong.rs"));
+}
